@@ -21,6 +21,8 @@ Driver handlers of property C07 (the hostname helpers themselves are handled by 
 * `c07_get_hostname` `{url, host, host_ensured, model_parser}` → `[safe_urlsplit argument,
   get_hostname, ensure_protocol(url), host after ensure]` (+ the same two hosts computed with the
   *modelled* parser when `model_parser`);
+* `c07_model_host` `{s}` → `[hostOfModel s]`: the modelled parser on the string `normalize_url` parses
+  (hypothesis `hmodel` of `normalized_hostname_agrees_model`);
 * `c07_helper_model` `{fn: gnh|gfh, url, puny, normalize_amp, infer_redirection, strip_suffix, walk,
   rules_file?}` → the helper with the modelled parser (`hostOfModel`) instead of a shipped host.
 -/
@@ -99,6 +101,7 @@ def handle (f : String) (j : Json) : Option Json :=
   | "c07_url_stems" => some (urlStemsOp j)
   | "c07_get_hostname" => some (getHostnameOp j)
   | "c07_true" => some (jbool true)
+  | "c07_model_host" => some (jlist [jOptStr (hostOfModel (s j "s"))])
   | _ => none
 
 def handleIO (f : String) (j : Json) : IO (Option Json) := do
